@@ -172,6 +172,35 @@ static void run_identity(void)
     vx_outcome(acc);
 }
 
+/* ------------------------------------------------------------------ very long runs
+ * the 2^32 + 4096 draws that follow a seeding, every one compared with the reference generator (a counter, an index
+ * or a cache position narrower than 64 bits wraps on the way) */
+static void run_longrun(void)
+{
+    static const uint64_t LS[2] = { 0x5EED0001ull, 0xFFFFFFFFFFFFFFF1ull };
+    const uint64_t seed = LS[vx_choose_free(2, "seed")];
+    struct refgen g;
+    ref_seed(&g, seed);
+    cmb_random_initialize(seed);
+    const uint64_t total = (UINT64_C(1) << 32) + 4096;
+    uint64_t acc = 0;
+    for (uint64_t k = 0; k < total; k++) {
+        const uint64_t want = ref_sfc64(&g);
+        const uint64_t got = cmb_random_sfc64();
+        if (got != want) {
+            char rule[96];
+            snprintf(rule, sizeof rule, "longrun:raw-stream-differs:%s", k < (UINT64_C(1) << 32) ? "before-2^32" : "after-2^32");
+            FAIL(rule, "seed %#" PRIx64 ": raw draw number %" PRIu64 " is %#" PRIx64 ", the documented generator gives %#" PRIx64,
+                 seed, k + 1, got, want);
+            return;
+        }
+        acc ^= got;
+    }
+    vx_transitions(1u << 20);
+    vx_state(seed);
+    vx_outcome(acc);
+}
+
 /* ------------------------------------------------------------------ the probe */
 #define PROBE_N 96
 struct probe { uint64_t v[PROBE_N]; int n; };
@@ -543,6 +572,7 @@ static void run_experiment_mode(void)
 static void run_one(void)
 {
     if (!strcmp(mode, "experiment")) { run_experiment_mode(); return; }
+    if (!strcmp(mode, "longrun")) { run_longrun(); return; }
     if (!strcmp(mode, "identity")) run_identity();
     else if (!strcmp(mode, "history")) run_history();
     else if (!strcmp(mode, "threads")) run_threads();
